@@ -55,7 +55,7 @@ def bounds(tier):
     """list of (calls, fragment cap) configurations; every kind sequence of each is checked"""
     if tier == "quick":
         return [dict(calls=2, cap=3, amt=2)]
-    return [dict(calls=2, cap=4, amt=2), dict(calls=3, cap=2, amt=2)]
+    return [dict(calls=2, cap=4, amt=2), dict(calls=3, cap=2, amt=2, min_text=2)]
 
 
 # --------------------------------------------------------------------------- interpretation
@@ -640,9 +640,11 @@ def run(ctx):
     stats = ctx["stats"]
     res = Result()
     BS = bounds(tier)
-    res.bounds = {"calls": "; ".join("every sequence of %d calls over {push_str, push_str_literal, indent, deindent} (%d kind sequences "
+    res.bounds = {"calls": "; ".join("every sequence of %d calls over {push_str, push_str_literal, indent, deindent}%s (kind sequences "
                                      "enumerated; texts and amounts symbolic) with fragments = every string of length <= %d over "
-                                     "{a, space, '{', '}', '/', newline}" % (B["calls"], 4 ** B["calls"], B["cap"]) for B in BS)
+                                     "{a, space, '{', '}', '/', newline}"
+                                     % (B["calls"], " containing at least %d text calls" % B["min_text"] if B.get("min_text") else "",
+                                        B["cap"]) for B in BS)
                            + "; each followed by the probe push_str(%r)" % PROBE,
                   "amounts": "0..%d" % BS[0]["amt"], "start_state": "Source::default()"}
     res.outside_claim = ["longer call sequences / fragments, other characters (tabs, \\r, non-ASCII)",
@@ -663,7 +665,8 @@ def run(ctx):
     jobs = []
     for B in BS:
         for c in itertools.product(range(4), repeat=B["calls"]):
-            jobs.append((c, B))
+            if sum(1 for k in c if k in (0, 1)) >= B.get("min_text", 0):
+                jobs.append((c, B))
     # hardest first (most symbolic text) so that the pool stays busy
     jobs.sort(key=lambda j: -sum(j[1]["cap"] for k in j[0] if k in (0, 1)))
     combos = jobs
